@@ -142,12 +142,21 @@ def parse_jobs(prop, tier, cfgs_rel, cfgs_chk, shards_rel, shards_chk, budget, a
     return jobs
 
 
+SHIPPED = os.path.join(common.REPO, "etc/correctness/test-parse-golang/parse-number-fxx-test-data/data")
+
+
 def p_oracle(prop, tier):
+    extra = []
+    if prop in ("C01", "C02"):
+        extra += ["--shipped-corpus", SHIPPED]
     if tier == "quick":
-        jobs = parse_jobs(prop, tier, CFG5, ["default", "compact"], 4, 2, 12)
+        jobs = parse_jobs(prop, tier, CFG5, ["default", "compact"], 4, 2, 12, extra + (["--midpoints", "4099", "--midpoints-budget", "0.45"] if prop == "C02" else []))
         rc = 30000
     else:
-        jobs = parse_jobs(prop, tier, CFG8, CFG5, 8, 4, 75)
+        jobs = parse_jobs(prop, tier, CFG8, CFG5, 8, 4, 75, extra + (["--midpoints", "257", "--midpoints-budget", "0.5"] if prop == "C02" else []))
+        if prop == "C02":
+            # complete enumeration of all f32 rounding boundaries in the default configuration
+            jobs.append(Job("eng_parse", "default", "rel", shards=16, budget=B(900), args=["--tier", tier, "--midpoints", "1", "--midpoints-budget", "0.97"], name="eng_parse-default-rel-allmidpoints", timeout=4000))
         rc = 400000
     what = {
         "C01": "f64 inputs",
@@ -159,7 +168,20 @@ def p_oracle(prop, tier):
             "round-ups, nudges; deciding digit placed at the 19/20, 114/115, 769/770 cut-offs and 19-digit chunk ends), range ends, 19-digit exact ties, fast-path seams, "
             "continued-fraction hard cases and structured random strings, each laid out as integer-only / fraction-only with leading zeros / split; every result judged by the exact oracle. "
             "Non-trivial = not decided by the plain fast path; distinct = distinct 64-bit hash of (integer, fraction, exponent, format), counted per shard over disjoint PRNG streams and summed." % what)
-    return generic(prop, tier, jobs, rule, ASSUME_ORACLE, recheck=rc)
+    def post(m, results, cov, violations, inconclusive, workdir, sd):
+        if prop != "C02":
+            return
+        ex = [(jn, e) for (jn, i, e) in m.extras if "f32_midpoint_stride" in e]
+        cov["f32_midpoints_enumerated"] = m.counters.get("midpoints.enumerated", 0)
+        cov["f32_midpoint_strides"] = sorted(set(int(e["f32_midpoint_stride"]) for (jn, e) in ex))
+        full = [e for (jn, e) in ex if jn == "eng_parse-default-rel-allmidpoints"]
+        cov["f32_all_midpoints_enumerated_in_default_configuration"] = bool(full) and len(full) == 16 and all(e.get("f32_midpoint_range_completed") for e in full)
+        cov["exhaustive_scope"] = "all 2^31 - 2^23 f32 rounding boundaries x (tie, just above, just below) in the default configuration, thorough only, when the flag above is true; everything else is sampled"
+
+    def exh(m, cov):
+        return bool(cov.get("f32_all_midpoints_enumerated_in_default_configuration"))
+
+    return generic(prop, tier, jobs, rule, ASSUME_ORACLE, recheck=rc, post=post, exhaustive=exh if prop == "C02" else None)
 
 
 def p_c03(prop, tier):
